@@ -20,6 +20,7 @@ import (
 type LoadConfig struct {
 	Repo       string            // /repo
 	HarnessDir string            // /verif/harness
+	GenDir     string            // generated harness support (optional)
 	Patterns   []string          // package patterns relative to the module, e.g. ./vm
 	Extra      map[string][]byte // extra overlay files
 }
@@ -66,6 +67,17 @@ func Load(cfg LoadConfig) (*Program, error) {
 	ov, err := Overlay(cfg.Repo, cfg.HarnessDir, false)
 	if err != nil {
 		return nil, err
+	}
+	if cfg.GenDir != "" {
+		if _, err := os.Stat(cfg.GenDir); err == nil {
+			ov2, err := Overlay(cfg.Repo, cfg.GenDir, false)
+			if err != nil {
+				return nil, err
+			}
+			for k, v := range ov2 {
+				ov[strings.Replace(k, "zz_verif_", "zz_verif_gen_", 1)] = v
+			}
+		}
 	}
 	for k, v := range cfg.Extra {
 		ov[k] = v
